@@ -8,7 +8,13 @@ From NV Require Import Base.Bytes Isa.Codec gen.IsaTable Lang.Ast Lang.Ref Back.
 Import ListNotations.
 
 Definition user_name (x : ident) : Prop := (x < HIDDEN)%N.
-Definition val_ok (v : value) : Prop := match v with VInt z => in64 z = true | _ => True end.
+(* ints are int64 values; an array holds int64 values and its length is one too (every array comes from a literal) *)
+Definition val_ok (v : value) : Prop :=
+  match v with
+  | VInt z => in64 z = true
+  | VArr l => Forall (fun z => in64 z = true) l /\ in64 (Z.of_nat (length l)) = true
+  | _ => True
+  end.
 
 (* ---------- set_nth ---------- *)
 Lemma set_nth_app_len {A} (a : list A) x b v : set_nth (length a) v (a ++ x :: b) = a ++ v :: b.
